@@ -679,15 +679,30 @@ pub fn compound_builder<'a>(ms: &'a [Member]) -> CompoundBuilder<'a> {
 
 /// The same, optionally querying the compound builder (size + scratch write) after every `add_packet`.
 pub fn compound_builder_p<'a>(ms: &'a [Member], probe: bool) -> CompoundBuilder<'a> {
-    let mut cb = pr(Compound::builder(), probe);
-    for m in ms {
+    compound_builder_pm(ms, if probe { 1 } else { 0 })
+}
+
+/// Where the compound builder (and every nested one) is queried: 0 nowhere; 1 when fresh and after every
+/// `add_packet`; 2 the same except after the last `add_packet` of each builder (so the last thing a builder was asked
+/// predates its last member: a memo filled by the query and read through another method - `get_padding()` by the
+/// enclosing compound - is stale); 3 only when fresh and after the first `add_packet`.
+pub fn compound_builder_pm<'a>(ms: &'a [Member], mode: u8) -> CompoundBuilder<'a> {
+    let at = |i: usize, n: usize| match mode {
+        0 => false,
+        1 => true,
+        2 => i + 1 < n,
+        _ => i == 0,
+    };
+    let mut cb = pr(Compound::builder(), mode != 0);
+    let n = ms.len();
+    for (i, m) in ms.iter().enumerate() {
         cb = match m {
             Member::Plain(p) => add_pkt(cb, p, false),
             Member::Wrapped(p) => add_pkt(cb, p, true),
             Member::Ext { pt, min, count, ssrc, words, pad } => super::ext::add_ext(cb, *pt, *min, *count, *ssrc, words, *pad),
-            Member::Nested(inner) => cb.add_packet(compound_builder_p(inner, probe)),
+            Member::Nested(inner) => cb.add_packet(compound_builder_pm(inner, mode)),
         };
-        cb = pr(cb, probe);
+        cb = pr(cb, at(i, n));
     }
     cb
 }
